@@ -5,6 +5,9 @@
    CReserveApprox the same with arbitrary rates and instants: float64 rounding allowed for, the
               delays must agree within tol nanoseconds (InfDuration exactly); tokens not compared
    CProvision Handler.Provision on a configuration: error?, the two burst sizes afterwards, totalLimiter != nil
+   CChain     several provisioned throttle handlers in one chain (cfgs in the order the handlers run,
+              i.e. the last one wraps outermost) over a scripted socket: observed (len of the slice
+              the socket's Read was given, count returned) for every Read(p) of the next handler
    CRead      Handler.Handle on a layer4.Connection that still holds [pre] prefetched bytes, then
               throttledConn.Read over a scripted inner connection holding [avail]
               bytes and handing over at most [chunk] per Read: observed (len of the slice the inner
@@ -23,6 +26,7 @@ Inductive c17case :=
 | CReserve (lp lq burst : Z) (inf : bool) (reqs : list (Z * Z)) (obs : list (Z * Z))
 | CReserveApprox (lp lq burst tol : Z) (reqs : list (Z * Z)) (obs : list (Z * Z))
 | CProvision (cfg : tconfig) (ok : bool) (rb tb : Z) (hast : bool)
+| CChain (cfgs : list tconfig) (avail chunk : Z) (lens : list Z) (obs : list (Z * Z))
 | CRead (cfg : tconfig) (pre avail chunk : Z) (lens errs : list Z) (obs ret : list (Z * Z)) (consT consL : Z).
 
 Fixpoint res_seq (L : limiter) (st : lstate) (reqs : list (Z * Z)) : list (Z * Z) :=
@@ -46,6 +50,12 @@ Fixpoint zz_near (tol : Z) (a b : list (Z * Z)) : bool :=
   | (x1, _) :: a', (x2, _) :: b' =>
       (if (x1 =? inf_duration) || (x2 =? inf_duration) then x1 =? x2 else Z.abs (x1 - x2) <=? tol) && zz_near tol a' b'
   | _, _ => false
+  end.
+
+Fixpoint provision_all (cfgs : list tconfig) : option (list handler) :=
+  match cfgs with
+  | [] => Some []
+  | c :: r => match provision c, provision_all r with Some h, Some hs => Some (h :: hs) | _, _ => None end
   end.
 
 Definition rets_of (tr : list ev) : list (Z * Z) :=
@@ -79,6 +89,17 @@ Definition check (c : c17case) : bool :=
           ok && (match hlocal h with Some L => lburst L | None => 0 end =? rb)
              && (match htotal h with Some L => lburst L | None => 0 end =? tb)
              && Bool.eqb (match htotal h with Some _ => true | None => false end) hast
+      end
+  | CChain cfgs avail chunk lens obs =>
+      match provision_all cfgs with
+      | None => false
+      | Some hs =>
+          let sess := [{| sstart := 0; sjit := 0; scancel := false; sdata := repeat x00 (Z.to_nat avail) |}] in
+          let reads := map (fun l => (0, {| oc := 0; olen := l; odelay := 0; oj2 := 0; oj3 := 0; oavail := chunk; oerr := 0 |}, 0)) lens in
+          match rev (chain_run (chain_init (rev hs) sess) reads) with
+          | (_, _, tr) :: _ => zz_eqb (pulls_of tr) obs
+          | [] => match obs with [] => true | _ => false end
+          end
       end
   | CRead cfg pre avail chunk lens0 errs obs ret consT consL =>
       match provision cfg with
